@@ -309,7 +309,8 @@ def r5(ctx: Ctx) -> None:
       "table it is given, so the in-place coefficient updates of __add__ / __mul__ on the copy cannot rewrite an operand", floor=2)
 def r4(ctx: Ctx) -> None:
     f = ctx.func(PB, "Expr.__init__")
-    c = canon_function(f, ctx.model)
+    from .common import unversion
+    c = unversion(canon_function(f, ctx.model), 1)       # 't = {} if t is None else t'
     t = ("p", 1)
     s_ = ("self",)
     loops = [lp for lp in atoms_of(c, lambda x: x[0] == "for" and len(x) == 5)]
